@@ -5,7 +5,8 @@ types with a change of value, read from clang's AST (`-Xclang -ast-dump=json`) o
 as a Coq table `coq/MachineOps_gen.v`:
 
     Definition machine_ops : list mfun :=
-      [ mkF "<listing file>" "<qualified function>" [ mkOp <kind> <result type> "<normalised source text>" <occurrence>; ... ]; ... ].
+      [ mkF "<listing file>" "<qualified function>" [ mkOp <kind> <result type> "<normalised source text>" <occurrence>; ... ]
+            [ "<qualified name of a function declared in the repo that the body calls>"; ... ]; ... ].
 
 kinds (coq/MachineOps.v)
   OAdd OSub OMul ODiv ORem OShl       BinaryOperator + - * / % << whose type is int / long / long long
@@ -42,7 +43,8 @@ TranslateError = ca.TranslateError
 # names them; an overloaded name is followed by its parameter types)
 LISTINGS = [
     ("RowLegMachine.v", [
-        ("src/place_detailed/row_legalizer.cpp", ["RowLegalizer::getDisplacement", "RowLegalizer::usedSpace"]),
+        ("src/place_detailed/row_legalizer.cpp", ["RowLegalizer::getDisplacement", "RowLegalizer::usedSpace", "RowLegalizer::getCost",
+                                                  "RowLegalizer::push"]),
     ]),
     ("SubdivMachine.v", [
         ("src/place_global/density_grid.cpp", ["computeSubdivisions"]),
@@ -56,7 +58,8 @@ LISTINGS = [
             "DetailedPlacement::positionsOnSwap", "DetailedPlacement::positionOnInsert", "DetailedPlacement::place",
             "DetailedPlacement::unplace", "DetailedPlacement::cellPos", "DetailedPlacement::cellX", "DetailedPlacement::cellWidth",
             "DetailedPlacement::cellPred", "DetailedPlacement::cellNext", "DetailedPlacement::cellRow",
-            "DetailedPlacement::rowFirstCell", "DetailedPlacement::isPlaced", "DetailedPlacement::rowY", "rowAllowed"]),
+            "DetailedPlacement::rowFirstCell", "DetailedPlacement::isPlaced", "DetailedPlacement::rowY", "rowAllowed",
+            "DetailedPlacement::nbCells", "DetailedPlacement::nbRows"]),
     ]),
     ("HpwlMachine.v", [
         ("src/coloquinte.cpp", ["Circuit::hpwl", "Circuit::pinXOffset", "Circuit::pinYOffset", "Circuit::nbNets", "Circuit::nbPinsNet",
@@ -65,14 +68,16 @@ LISTINGS = [
         ("src/place_detailed/incr_net_model.cpp", [
             "IncrNetModel::computeNetMinMaxPos(int)", "IncrNetModel::computeValue", "IncrNetModel::updateCellPos",
             "IncrNetModel::recomputeNet", "IncrNetModel::computeNetMinMaxPos()", "IncrNetModel::nbNetPins", "IncrNetModel::pinCell",
-            "IncrNetModel::netPinOffset", "IncrNetModel::nbNets", "IncrNetModel::nbCellPins", "IncrNetModel::pinNet"]),
+            "IncrNetModel::netPinOffset", "IncrNetModel::nbNets", "IncrNetModel::nbCellPins", "IncrNetModel::pinNet",
+            "IncrNetModel::nbCells"]),
     ]),
     ("AbacusMachine.v", [
         ("src/place_detailed/abacus_legalizer.cpp", [
-            "AbacusLegalizer::run", "AbacusLegalizer::placeCell", "AbacusLegalizer::evaluatePlacement", "LegalizerBase::nbRows",
+            "AbacusLegalizer::run", "AbacusLegalizer::placeCell", "AbacusLegalizer::evaluatePlacement", "AbacusLegalizer::check",
+            "LegalizerBase::nbRows",
             "LegalizerBase::nbCells", "Rectangle::height", "RowLegalizer::remainingSpace",
             "norm(int, int, coloquinte::LegalizationModel)", "computeNorm(long long, long long, coloquinte::LegalizationModel)"]),
-        ("src/place_detailed/legalizer.cpp", ["LegalizerBase::closestRow"]),
+        ("src/place_detailed/legalizer.cpp", ["LegalizerBase::closestRow", "LegalizerBase::getOrientation", "LegalizerBase::check"]),
         ("src/place_detailed/row_legalizer.cpp", ["RowLegalizer::getPlacement"]),
     ]),
     ("Transp1dMachine.v", [
@@ -106,7 +111,12 @@ LISTINGS = [
             "Rectangle::intersects", "HierarchicalDensityPlacement::fromIspdCircuit",
             "HierarchicalDensityPlacement::updateCellDemand(const coloquinte::Circuit &)",
             "HierarchicalDensityPlacement::totalDemand", "HierarchicalDensityPlacement::totalOverflow",
-            "HierarchicalDensityPlacement::binUsage"]),
+            "HierarchicalDensityPlacement::binUsage", "HierarchicalDensityPlacement::binCapacity",
+            "HierarchicalDensityPlacement::binCells", "HierarchicalDensityPlacement::cellDemand",
+            "HierarchicalDensityPlacement::nbBinsX()", "HierarchicalDensityPlacement::nbBinsX(int)",
+            "HierarchicalDensityPlacement::nbBinsY()", "HierarchicalDensityPlacement::nbBinsY(int)",
+            "HierarchicalDensityPlacement::nbCells", "HierarchicalDensityPlacement::getGroup", "DensityGrid::binLimitX",
+            "DensityGrid::binLimitY", "Circuit::isFixed"]),
         ("src/coloquinte.cpp", ["Circuit::area", "Circuit::computeRowPlacementArea", "Circuit::expandCellsToDensity",
                                 "Circuit::expandCellsByFactor"]),
     ]),
@@ -427,14 +437,16 @@ def named_defs(objs):
 
 T1D_EXCLUDED = ("Transportation1d::solve", "Transportation1d::checkSolutionValid", "Transportation1dSolver::checkSolutionOptimal",
                 "Transportation1d::read", "Transportation1d::readSolution", "Transportation1d::write",
-                "Transportation1d::writeAssignment", "Transportation1d::writeSolution")
+                "Transportation1d::writeAssignment", "Transportation1d::writeSolution",
+                "Transportation1d::cost(const Transportation1d::Solution &)")
 
 
 def transp1d_functions(defs):
-    """every member function of Transportation1d / Transportation1dSorter / Transportation1dSolver-like classes defined in the
-    translation unit, except solve() and what only it reaches (design/C07.md: not called by the library)"""
-    names = sorted(n for n in defs if "(" not in n and n.split("::")[0].startswith("Transportation1d") and n not in T1D_EXCLUDED)
-    return names
+    """every member function of the Transportation1d / Transportation1dSorter / Transportation1dSolver classes defined in the
+    translation unit (an overloaded one under its name with parameter types), except solve(), what only it reaches and the
+    text I/O (design/C07.md: not called by the library)"""
+    names = [n for n in defs if "(" not in n] + [n for n in defs if "(" in n and base_name(n) not in defs]
+    return sorted(n for n in names if n.split("::")[0].startswith("Transportation1d") and n not in T1D_EXCLUDED)
 
 
 def scan_function(name, d):
@@ -448,7 +460,7 @@ def scan_function(name, d):
 
 
 # the listings whose cover table (coq/MachineOpsCover.v) is complete: only these are translated (design/C07.md says which)
-TIED = ("RowLegMachine.v", "SubdivMachine.v", "SspMachine.v", "SspMachineRun.v", "AbacusMachine.v", "MovesMachine.v", "HpwlMachine.v", "DensityMachine.v")
+TIED = ("RowLegMachine.v", "SubdivMachine.v", "SspMachine.v", "SspMachineRun.v", "AbacusMachine.v", "MovesMachine.v", "HpwlMachine.v", "DensityMachine.v", "Transp1dMachine.v")
 
 
 def translate(repo, listings=None):
@@ -459,7 +471,8 @@ def translate(repo, listings=None):
             src = os.path.join(repo, rel)
             if not os.path.exists(src):
                 raise TranslateError("%s does not exist" % src)
-            defs = named_defs(clang_dump(repo, src))
+            objs = clang_dump(repo, src)
+            defs, idx = named_defs(objs), decl_index(objs)
             if fns is None:
                 fns = transp1d_functions(defs)
                 if not fns:
@@ -468,9 +481,22 @@ def translate(repo, listings=None):
                 if fn not in defs:
                     raise TranslateError("function %s (listing %s) has no definition in %s: the table of tools/machine_ops.py "
                                          "no longer describes the source" % (fn, listing, rel))
-                out.append((listing, fn, scan_function(fn, defs[fn])))
+                out.append((listing, fn, scan_function(fn, defs[fn]), function_calls(defs[fn], idx)))
     out.sort(key=lambda t: (t[0], t[1]))
     return out
+
+
+def function_calls(d, idx):
+    """sorted qualified names (no parameter list) of the functions DECLARED in the repo's own code that the body refers to
+    (calls; also a function whose address is taken).  Not seen: constructors (clang's CXXConstructExpr names no declaration in
+    the JSON dump), compiler-generated members, the call operator of a lambda (its body is part of the enclosing function)"""
+    out = set()
+    for w in ca.walk(d):
+        ref = w.get("referencedMemberDecl") if w.get("kind") == "MemberExpr" else \
+            w.get("referencedDecl", {}).get("id") if w.get("kind") == "DeclRefExpr" else None
+        if ref in idx:
+            out.add(idx[ref])
+    return sorted(out)
 
 
 def decl_index(objs):
@@ -482,44 +508,40 @@ def decl_index(objs):
             if w.get("kind") in ("CXXRecordDecl", "ClassTemplateSpecializationDecl") and "id" in w and w.get("name"):
                 recname[w["id"]] = w["name"]
 
-    def rec(n, scope):
+    def rec(n, scope, unnamed=False):
         k = n.get("kind")
         if k in ("CXXRecordDecl", "NamespaceDecl", "ClassTemplateSpecializationDecl") and n.get("name"):
             scope = scope + [n["name"]]
-        if k in ("FunctionDecl", "CXXMethodDecl", "CXXConstructorDecl", "CXXConversionDecl") and "id" in n:
+        if k == "CXXRecordDecl":
+            unnamed = not n.get("name")        # a lambda's closure type
+        if k in ("FunctionDecl", "CXXMethodDecl", "CXXConstructorDecl", "CXXConversionDecl") and "id" in n \
+                and not n.get("isImplicit") and not (unnamed and n.get("name") == "operator()"):
             cls = recname.get(n.get("parentDeclContextId"))
             sc = [x for x in scope if x != "coloquinte"]
             if cls and (not sc or sc[-1] != cls):
                 sc = sc + [cls]
             idx[n["id"]] = "::".join(sc + [n.get("name", "?")])
         for c in kids(n):
-            rec(c, scope)
+            rec(c, scope, unnamed)
     for o in objs:
         rec(o, [])
     return idx
 
 
-def callees_outside(repo, listings=None):
-    """DIAGNOSTIC (reported, not enforced by the Coq rule): for every listing, the functions of the repo that a function of the
-    table calls and that are not themselves in the table of that listing -- candidates for `a callee that the listing inlines
-    but the table forgot`; constructors and operators of the repo's classes included when clang names them"""
+def base_name(fn):
+    return fn.split("(")[0]
+
+
+def callees_outside(table):
+    """callee -> sorted callers, for every callee of a function of the table that is not itself (by its name without parameter
+    list) a function of the table: what coq/MachineOpsCover.v must list in [callees_not_inlined]"""
+    have = set(base_name(t[1]) for t in table)
     out = {}
-    for listing, parts in (listings or [l for l in LISTINGS if l[0] in TIED]):
-        have, called = set(), {}
-        for rel, fns in parts:
-            objs = clang_dump(repo, os.path.join(repo, rel))
-            defs, idx = named_defs(objs), decl_index(objs)
-            if fns is None:
-                fns = transp1d_functions(defs)
-            for fn in fns:
-                have.add(fn.split("(")[0])
-                for w in ca.walk(defs[fn]):
-                    ref = w.get("referencedMemberDecl") if w.get("kind") == "MemberExpr" else \
-                        w.get("referencedDecl", {}).get("id") if w.get("kind") == "DeclRefExpr" else None
-                    if ref in idx:
-                        called.setdefault(idx[ref], set()).add(fn.split("(")[0])
-        out[listing] = {c: sorted(by) for c, by in sorted(called.items()) if c not in have}
-    return out
+    for _, fn, _, calls in table:
+        for c in calls:
+            if c not in have:
+                out.setdefault(c, set()).add(base_name(fn))
+    return {c: sorted(by) for c, by in sorted(out.items())}
 
 
 def coq_string(s):
@@ -534,23 +556,23 @@ def coq_text(table, note=""):
              "Local Open Scope string_scope.", "",
              "Definition machine_ops : list mfun := ["]
     fb = []
-    for listing, fn, ops in table:
+    for listing, fn, ops, calls in table:
         ob = ["    mkOp %s %s %s %d (* line %d *)" % (("(%s)" % k) if " " in k else k, ty, coq_string(text), occ, line)
               for k, ty, text, occ, line in ops]
-        fb.append("  mkF %s %s [\n%s]" % (coq_string(listing), coq_string(fn), ";\n".join(ob)))
+        fb.append("  mkF %s %s [\n%s]\n    [%s]" % (coq_string(listing), coq_string(fn), ";\n".join(ob), "; ".join(coq_string(c) for c in calls)))
     lines.append(";\n".join(fb))
     lines.append("].")
     return "\n".join(lines) + "\n"
 
 
 def stub_text(err):
-    return coq_text([("TRANSLATOR FAILED", "TRANSLATOR FAILED", [("OAdd", "MInt", str(err).replace("*)", "* )")[:400], 0, 0)])],
+    return coq_text([("TRANSLATOR FAILED", "TRANSLATOR FAILED", [("OAdd", "MInt", str(err).replace("*)", "* )")[:400], 0, 0)], [])],
                     "  tools/machine_ops.py could NOT translate the tree under check.")
 
 
 def counts(table):
     by_kind, by_type = {}, {}
-    for _, _, ops in table:
+    for _, _, ops, _ in table:
         for k, ty, _, _, _ in ops:
             by_kind[k.split()[0]] = by_kind.get(k.split()[0], 0) + 1
             by_type[ty] = by_type.get(ty, 0) + 1
@@ -572,13 +594,12 @@ if __name__ == "__main__":
             write_gen(a[a.index("--coq") + 1], stub_text(e))   # a table that the cover cannot match: the theorem fails, the file exists
         sys.exit(2)
     if "--calls" in a:
-        for listing, cs in callees_outside(repo).items():
-            print("== %s: functions of the repo called from the table's functions but not in the table" % listing)
-            for c, by in cs.items():
-                print("   %-60s called by %s" % (c, ", ".join(by)))
+        print("== functions of the repo called from the table's functions but not in the table (for callees_not_inlined)")
+        for c, by in callees_outside(table).items():
+            print("   %-60s called by %s" % (c, ", ".join(by)))
     elif "--skeleton" in a:
         # a cover table with every entry still to be decided (for coq/MachineOpsCover.v)
-        for listing, fn, ops in table:
+        for listing, fn, ops, _ in table:
             print("  mkCF %s %s [" % (coq_string(listing), coq_string(fn)))
             print(";\n".join("    mkC %s %s %s %d (Excluded ENotListed \"TODO\")" % (("(%s)" % k) if " " in k else k, ty, coq_string(text), occ)
                              for k, ty, text, occ, line in ops))
@@ -587,8 +608,8 @@ if __name__ == "__main__":
         ch = write_gen(a[a.index("--coq") + 1], coq_text(table))
         print("MachineOps_gen.v %s (%s)" % ("rewritten" if ch else "unchanged", counts(table)))
     else:
-        for listing, fn, ops in table:
-            print("== %s  %s" % (listing, fn))
+        for listing, fn, ops, calls in table:
+            print("== %s  %s   calls: %s" % (listing, fn, ", ".join(calls)))
             for k, ty, text, occ, line in ops:
                 print("   %-18s %-8s #%d  %-70s (line %d)" % (k, ty, occ, text, line))
         print("# %s" % counts(table))
